@@ -259,7 +259,7 @@ P2_ALLOWED = {
     "default_str_storage": ({"SetDimStringStorageVisitor", "StrVarAllocatorVisitor", "ProcedureBank"}, set()),
     "compiler_configs": ({"SetDimStringStorageVisitor", "CompilerConfigs"}, {"CompilerConfigs"}),
     "add_standard_prefix": (set(), ELEMENT_CTORS | {"insert_lines_at_beginning", "BasicHbuffPresenceVisitor", "visit", "=prefix_lines", "=hbuff_visitor"}),
-    "add_suffix": (set(), {"append_lines"}),
+    "add_suffix": (set(), {"append_lines", "generate"}),  # building the dispatcher lines only when they are appended is the same influence
     "output_dependencies": (
         {"match", "fullmatch", "search", "set_procname", "get_procedure_and_dependencies", "add_from_str"},
         {"=procname", "=program", "=procedure_bank", "match", "fullmatch", "search", "const:procname", "const:'program'", "ProcedureBank", "add_from_resource", "add_from_str", "get_procedure_and_dependencies"},
@@ -423,6 +423,17 @@ def p3(ctx: Ctx):
             ns = n.targets[0].id
     ctx.need(ns is not None, "start", "parse_args() result not found")
     kwmap: Dict[str, ast.AST] = {k.arg: k.value for k in call.keywords if k.arg}
+    from .pyast import resolve_alias as _ra0
+
+    for k in call.keywords:
+        if k.arg is None:
+            # `**options`: a dict display with constant keys, possibly through a local
+            d_ = _ra0(fn, k.value)
+            if isinstance(d_, ast.Dict) and all(isinstance(x, ast.Constant) and isinstance(x.value, str) for x in d_.keys):
+                for x, v_ in zip(d_.keys, d_.values):
+                    kwmap.setdefault(x.value, v_)
+            else:
+                raise AnalysisError("P3", "convert_file(**...)", f"keyword arguments come from `{unparse(k.value)}`, not from a literal mapping (line {call.lineno}): cannot map flags to options")
 
     def source_of(e: ast.AST) -> Tuple[Optional[str], str]:
         """(dest, polarity) for `args.x` / `not args.x`."""
@@ -704,7 +715,57 @@ def _nonempty_test(cond: str) -> bool:
 # P6 HANDLER-CONSTANTS
 
 
-@rule("P6", "HANDLER-CONSTANTS: dispatcher label, ON ERROR target and the line-number bound agree; break goes to the BRK target", ["C06"], floor=5)
+class _GuardUnknown(Exception):
+    pass
+
+
+def _guard_eval(e: ast.AST, env: Dict[str, object]):
+    """Value of a side-effect-free guard over known locals (None tests, truthiness, comparisons, len)."""
+    if isinstance(e, ast.Constant):
+        return e.value
+    if isinstance(e, ast.Name):
+        if e.id in env:
+            return env[e.id]
+        raise _GuardUnknown(f"name {e.id}")
+    if isinstance(e, ast.BoolOp):
+        r = None
+        for v in e.values:
+            r = _guard_eval(v, env)
+            if isinstance(e.op, ast.And) and not r:
+                return r
+            if isinstance(e.op, ast.Or) and r:
+                return r
+        return r
+    if isinstance(e, ast.UnaryOp) and isinstance(e.op, ast.Not):
+        return not _guard_eval(e.operand, env)
+    if isinstance(e, ast.Call) and isinstance(e.func, ast.Name) and e.func.id in ("len", "bool", "any", "all") and len(e.args) == 1 and not e.keywords:
+        v = _guard_eval(e.args[0], env)
+        try:
+            return {"len": len, "bool": bool, "any": any, "all": all}[e.func.id](v)
+        except TypeError as ex:
+            raise _GuardUnknown(str(ex))
+    if isinstance(e, ast.Compare):
+        left = _guard_eval(e.left, env)
+        for op, c in zip(e.ops, e.comparators):
+            right = _guard_eval(c, env)
+            try:
+                r = {
+                    ast.Is: lambda a, b: a is b, ast.IsNot: lambda a, b: a is not b, ast.Eq: lambda a, b: a == b, ast.NotEq: lambda a, b: a != b,
+                    ast.Lt: lambda a, b: a < b, ast.LtE: lambda a, b: a <= b, ast.Gt: lambda a, b: a > b, ast.GtE: lambda a, b: a >= b,
+                    ast.In: lambda a, b: a in b, ast.NotIn: lambda a, b: a not in b,
+                }[type(op)](left, right)
+            except (TypeError, KeyError) as ex:
+                raise _GuardUnknown(str(ex))
+            if not r:
+                return False
+            left = right
+        return True
+    if isinstance(e, (ast.Tuple, ast.List)):
+        return [_guard_eval(x, env) for x in e.elts]
+    raise _GuardUnknown(f"expression `{unparse(e)}`")
+
+
+@rule("P6", "HANDLER-CONSTANTS: dispatcher label, ON ERROR target and the line-number bound agree; break goes to the BRK target", ["C06", "C07"], floor=5, default_props=["C06"])
 def p6(ctx: Ctx):
     py = pyfacts(ctx)
     from .normalise import normalise_module
@@ -780,6 +841,35 @@ def p6(ctx: Ctx):
     kw = {k.arg: unparse(k.value) for k in gen.keywords}
     okk = kw.get("brk_line") == "brk_line" and kw.get("err_line") == "err_line"
     ctx.ob("convert->generate", okk, "" if okk else f"generate() is called with {kw}", file=COMPILER_REL, line=gen.lineno)
+    # the dispatcher lines reach the program whenever suffixes are on and a handler was requested:
+    # the guard of append_lines(<result of generate>) is evaluated for every presence combination of the two targets
+    from .pyast import resolve_alias as _ra2
+
+    app = [i for i in P.insertions if i.method == "append_lines" and any(isinstance(c, ast.Call) and call_name(c) == "generate" for c in ast.walk(_ra2(P.fn, i.arg)))]
+    if not app:
+        ctx.undecided("dispatcher:appended", "no append_lines(<result of generate()>) in convert()", file=COMPILER_REL, line=gen.lineno)
+    else:
+        ins = app[0]
+        kwv = {k.arg: k.value.id for k in gen.keywords if isinstance(k.value, ast.Name)}
+        sufvar = ins.arg.id if isinstance(ins.arg, ast.Name) else None
+        lost = []
+        undec = None
+        for e_ in (None, 100):
+            for b_ in (None, 0, 200):
+                if e_ is None and b_ is None:
+                    continue
+                env = {"add_suffix": True, kwv.get("err_line", "err_line"): e_, kwv.get("brk_line", "brk_line"): b_}
+                if sufvar:
+                    env[sufvar] = ["dispatcher"]
+                try:
+                    if not all(_guard_eval(ast.parse(c, mode="eval").body, env) for c in ins.conds):
+                        lost.append(f"ERR target {e_}, BRK target {b_}")
+                except _GuardUnknown as ex:
+                    undec = str(ex)
+        if undec is not None and not lost:
+            ctx.undecided("dispatcher:appended", f"the guard {ins.conds} of append_lines is not evaluable ({undec})", file=COMPILER_REL, line=ins.line)
+        else:
+            ctx.ob("dispatcher:appended", not lost, "" if not lost else f"with suffixes on, the dispatcher lines are appended under {ins.conds}: for {lost} `ON ERROR GOTO {label}` is emitted but no line {label} exists", file=COMPILER_REL, line=ins.line, witness="" if not lost else "10 ON BRK GOTO 20 / 20 END")
     # brk_line comes from the ON BRK collector, err_line from the ON ERR collector
     for var, cls in (("err_line", "BasicOnErrGoStatement"), ("brk_line", "BasicOnBrkGoStatement")):
         d = next((n for n in ast.walk(P.fn) if isinstance(n, (ast.Assign, ast.AnnAssign)) and isinstance((n.targets[0] if isinstance(n, ast.Assign) else n.target), ast.Name) and (n.targets[0] if isinstance(n, ast.Assign) else n.target).id == var), None)
@@ -789,7 +879,7 @@ def p6(ctx: Ctx):
         if coll:
             p = next((p for p in P.passes if p.var == coll.group(1)), None)
             okv = p is not None and p.ctor.args and isinstance(p.ctor.args[0], ast.Name) and p.ctor.args[0].id == cls
-        ctx.ob(f"{var}<-{cls}", okv, "" if okv else f"`{var}` is not the target of the single {cls}", file=COMPILER_REL, line=d.lineno)
+        ctx.ob(f"{var}<-{cls}", okv, "" if okv else f"`{var}` is not the target (line number) of the single {cls}: the dispatcher jumps elsewhere / prints something that is not a line number", file=COMPILER_REL, line=d.lineno, props=["C06", "C07"])
 
 
 # ---------------------------------------------------------------------------
@@ -1028,6 +1118,44 @@ def _effects(py, cls: str) -> Dict[str, int]:
     return out
 
 
+def _zero_guard(vl: ast.FunctionDef, guards: List[ast.If]) -> Optional[bool]:
+    """Does the single guard of visit_line let exactly line number 0 through?  None: not a form this reads."""
+    if len(guards) != 1:
+        return False if not guards else None
+    g = guards[0]
+
+    def num_test(t) -> Optional[str]:
+        """'zero' / 'nonzero' / 'other' for a test on `<x>.num`"""
+        if isinstance(t, ast.UnaryOp) and isinstance(t.op, ast.Not):
+            r = num_test(t.operand)
+            return {"zero": "nonzero", "nonzero": "zero"}.get(r, r)
+        if isinstance(t, ast.Attribute) and t.attr == "num":
+            return "nonzero"
+        if isinstance(t, ast.Compare) and len(t.ops) == 1:
+            a, b = t.left, t.comparators[0]
+            if isinstance(b, ast.Attribute) and b.attr == "num" and isinstance(a, ast.Constant):
+                a, b = b, a
+            if isinstance(a, ast.Attribute) and a.attr == "num" and isinstance(b, ast.Constant) and isinstance(b.value, int) and not isinstance(b.value, bool):
+                if isinstance(t.ops[0], ast.Eq):
+                    return "zero" if b.value == 0 else "other"
+                if isinstance(t.ops[0], ast.NotEq):
+                    return "nonzero" if b.value == 0 else "other"
+                return "other"
+        return None
+
+    k = num_test(g.test)
+    if k is None:
+        return None
+    body_sets = any(isinstance(c, ast.Call) and isinstance(c.func, ast.Attribute) and c.func.attr == "set_is_referenced" for n in g.body for c in ast.walk(n))
+    else_sets = any(isinstance(c, ast.Call) and isinstance(c.func, ast.Attribute) and c.func.attr == "set_is_referenced" for n in g.orelse for c in ast.walk(n))
+    leaves = bool(g.body) and isinstance(g.body[-1], (ast.Return, ast.Continue)) and not g.orelse
+    if body_sets and not else_sets:
+        return k == "zero"
+    if (else_sets and not body_sets) or (leaves and not body_sets):
+        return k == "nonzero"
+    return None
+
+
 @rule("E6", "PASS-EFFECTS: each pass mutates program objects only in the ways allowed for it", ["C06", "C11"], floor=15)
 def e6(ctx: Ctx):
     py = pyfacts(ctx)
@@ -1082,7 +1210,18 @@ def e6(ctx: Ctx):
         ctx.need(rvl is not None, f"{cls}.visit_line", "not found")
         vl = rvl[1]
         src = unparse(vl)
-        member = re.search(r"set_is_referenced\(\s*\w+\.num\s+in\s+self\._references\s*\)", src) is not None
+        # the flag passed to set_is_referenced, seen through local temporaries: `<line>.num in self._references`
+        member = None
+        for c_ in ast.walk(vl):
+            if isinstance(c_, ast.Call) and isinstance(c_.func, ast.Attribute) and c_.func.attr == "set_is_referenced" and len(c_.args) == 1:
+                a_ = _ra(vl, c_.args[0])
+                if isinstance(a_, ast.Compare) and len(a_.ops) == 1 and isinstance(a_.ops[0], (ast.In, ast.NotIn)):
+                    member = isinstance(a_.ops[0], ast.In) and isinstance(a_.left, ast.Attribute) and a_.left.attr == "num" and unparse(_ra(vl, a_.comparators[0])) == "self._references"
+                elif isinstance(a_, ast.Constant):
+                    member = False
+        if member is None:
+            ctx.undecided(f"{cls}:membership", "the flag given to set_is_referenced is not a plain membership test", file=VISITORS_REL, line=vl.lineno)
+            continue
         guards = [n for n in ast.walk(vl) if isinstance(n, ast.If)]
         # a guard through an overridable hook (`if self._is_candidate(line)`) is judged on the hook each class provides
         hooks = [g.test.func.attr for g in guards if isinstance(g.test, ast.Call) and isinstance(g.test.func, ast.Attribute) and isinstance(g.test.func.value, ast.Name) and g.test.func.value.id == "self"]
@@ -1096,6 +1235,9 @@ def e6(ctx: Ctx):
                 ok = member and (zero if needs_zero else always)
                 ctx.ob(f"{cls}:membership", ok, "" if ok else f"`{cls}` marks lines under `{unparse(rets[0])}`: the flag has to be `line.num in references`" + (" only for line 0" if needs_zero else " for every line"), file=VISITORS_REL, line=vl.lineno)
                 continue
-        zero = re.search(r"if\s+\w+\.num\s*==\s*0\s*:", src) is not None
-        ok = member and (zero if needs_zero else not guards)
+        zero = _zero_guard(vl, guards)
+        if needs_zero and zero is None:
+            ctx.undecided(f"{cls}:membership", "the test that selects line 0 is not one of the recognised forms", file=VISITORS_REL, line=vl.lineno)
+            continue
+        ok = member and (bool(zero) if needs_zero else not guards)
         ctx.idiom(f"{cls}:membership", member or bool(guards), ok, "" if ok else f"`{cls}.visit_line` does not set the flag to `line.num in references`" + (" only for line 0" if needs_zero else " for every line"), file=VISITORS_REL, line=vl.lineno)
